@@ -144,6 +144,14 @@ fn forger(ctx: &Ctx) {
         for lo in &low {
             variants.push((format!("claim low-order static {} with ss = zeros", &hex(lo)[..8]), base(*lo, honest_es.clone(), Dh::Value([0; 32]), e.pk), false));
         }
+        // ... and with other substitutes a decryptor might use for the refused Diffie-Hellman: the empty string, a single
+        // zero byte, 16 or 64 zero bytes, the low-order point itself
+        for lo in &low {
+            for (what, sub) in [("the empty string", vec![]), ("one zero byte", vec![0u8]), ("16 zero bytes", vec![0u8; 16]), ("64 zero bytes", vec![0u8; 64]), ("the point itself", lo.to_vec())] {
+                variants.push((format!("claim low-order static {} with ss = {}", &hex(lo)[..8], what), base(*lo, honest_es.clone(), Dh::Bytes(sub.clone()), e.pk), false));
+                variants.push((format!("low-order ephemeral {} and low-order static with es = ss = {}: all from public data", &hex(lo)[..8], what), base(*lo, Dh::Bytes(sub.clone()), Dh::Bytes(sub), *lo), false));
+            }
+        }
         // low-order ephemeral: es = zeros from public data alone, combined with honest and low-order statics
         for lo in &low {
             variants.push((format!("low-order ephemeral {} (es = zeros), attacker static", &hex(lo)[..8]), base(attacker.pk, Dh::Value([0; 32]), Dh::Compute(attacker.sk, rcpt.pk), *lo), false));
